@@ -938,3 +938,172 @@ def vtk_stub(field_module, vtk_module):
         vtk_module.vtkXMLRectilinearGridReader = saved["v_xr"]
         vtk_module.vtkXMLRectilinearGridWriter = saved["v_xw"]
         vtk_module.pathlib = saved["v_p"]
+
+
+# ----------------------------------------------------------------------------------------------------------------
+# scipy.spatial.transform.Rotation / scipy.interpolate.RegularGridInterpolator stubs for field_rotator.py.
+# Contract (SciPy documentation): from_matrix(M) has matrix M; a*b is the matrix product (b applied first); inv() is the
+# transpose (rotations); apply(v) = M v for every row of v.  RegularGridInterpolator(points, values, fill_value,
+# bounds_error=False)(x): multilinear interpolation of `values` on the rectilinear grid `points` for x inside the grid,
+# fill_value outside.  Rotations given in other parametrisations (quaternion, rotation vector, Euler angles, align_vectors)
+# are converted by the real SciPy (concrete arguments only).
+class RotStub:
+    def __init__(self, matrix):
+        from .sarray import plain, symify
+
+        self.M = np.asarray(plain(symify(matrix)), dtype=object).reshape(3, 3)
+
+    @classmethod
+    def from_matrix(cls, m):
+        return cls(m)
+
+    @classmethod
+    def _via_scipy(cls, name, *a, **k):
+        from scipy.spatial.transform import Rotation as R
+
+        return cls(np.asarray(getattr(R, name)(*a, **k).as_matrix(), dtype=float))
+
+    @classmethod
+    def from_quat(cls, *a, **k):
+        return cls._via_scipy("from_quat", *a, **k)
+
+    @classmethod
+    def from_rotvec(cls, *a, **k):
+        return cls._via_scipy("from_rotvec", *a, **k)
+
+    @classmethod
+    def from_mrp(cls, *a, **k):
+        return cls._via_scipy("from_mrp", *a, **k)
+
+    @classmethod
+    def from_euler(cls, *a, **k):
+        return cls._via_scipy("from_euler", *a, **k)
+
+    @classmethod
+    def align_vectors(cls, a, b, *args, **k):
+        from scipy.spatial.transform import Rotation as R
+
+        r = R.align_vectors(a, b, *args, **k)
+        return (cls(np.asarray(r[0].as_matrix(), dtype=float)),) + tuple(r[1:])
+
+    def as_matrix(self):
+        from .sarray import wrap
+
+        return wrap(self.M.copy())
+
+    def __mul__(self, other):
+        out = np.empty((3, 3), dtype=object)
+        for i in range(3):
+            for j in range(3):
+                acc = 0.0
+                for k in range(3):
+                    acc = acc + self.M[i, k] * other.M[k, j]
+                out[i, j] = acc
+        return RotStub(out)
+
+    def inv(self):
+        return RotStub(self.M.T.copy())
+
+    def apply(self, v):
+        from .sarray import plain, symify, wrap
+
+        a = np.asarray(plain(symify(v)), dtype=object)
+        single = a.ndim == 1
+        rows = a.reshape(-1, 3)
+        out = np.empty(rows.shape, dtype=object)
+        for r in range(rows.shape[0]):
+            for i in range(3):
+                acc = 0.0
+                for k in range(3):
+                    acc = acc + self.M[i, k] * rows[r, k]
+                out[r, i] = acc
+        out = out.reshape(3) if single else out
+        return wrap(out)
+
+
+class RGIStub:
+    def __init__(self, points, values, method="linear", bounds_error=True, fill_value=np.nan):
+        from .sarray import plain, symify
+
+        if method != "linear":
+            from .core import Unsupported
+
+            raise Unsupported("RegularGridInterpolator stub: linear only")
+        self.grid = [np.asarray(p, dtype=float) for p in points]
+        self.values = np.asarray(plain(symify(values)), dtype=object)
+        self.bounds_error = bounds_error
+        self.fill_value = fill_value
+
+    def __call__(self, xi):
+        from .sarray import has_sym, wrap
+
+        pts = np.asarray(xi)
+        if pts.dtype == object:
+            if has_sym(pts):
+                from .core import Unsupported
+
+                raise Unsupported("RegularGridInterpolator stub: symbolic sample positions")
+            pts = pts.astype(float)
+        pts = pts.reshape(-1, len(self.grid))
+        out = np.empty(pts.shape[0], dtype=object)
+        for r, p in enumerate(pts):
+            inside = all(g[0] <= p[a] <= g[-1] for a, g in enumerate(self.grid))
+            if not inside:
+                if self.bounds_error:
+                    raise ValueError("One of the requested xi is out of bounds")
+                out[r] = self.fill_value
+                continue
+            idx, w = [], []
+            for a, g in enumerate(self.grid):
+                i = int(np.searchsorted(g, p[a], side="right") - 1)
+                i = min(max(i, 0), len(g) - 2)
+                t = (p[a] - g[i]) / (g[i + 1] - g[i])
+                idx.append(i)
+                w.append(float(t))
+            acc = 0.0
+            for corner in np.ndindex(*([2] * len(self.grid))):
+                wt = 1.0
+                for a, c in enumerate(corner):
+                    wt *= w[a] if c else (1.0 - w[a])
+                if wt != 0.0:
+                    acc = acc + wt * self.values[tuple(i + c for i, c in zip(idx, corner))]
+            out[r] = acc
+        return wrap(out)
+
+
+class _NDArrayMeta(type):
+    def __instancecheck__(cls, inst):
+        return isinstance(inst, np.ndarray)
+
+    def __call__(cls, *a, **k):
+        # np.ndarray(shape=...) allocates an uninitialised float array; the caller then stores symbolic values in it
+        shape = k.get("shape", a[0] if a else None)
+        out = np.empty(tuple(int(x) for x in shape), dtype=object)
+        from .sarray import SymArray
+
+        return out.view(SymArray)
+
+
+class _NDArrayProxy(metaclass=_NDArrayMeta):
+    pass
+
+
+class RotatorNumpy:
+    def __init__(self, base):
+        self._base = base
+        self.ndarray = _NDArrayProxy
+
+    def __getattr__(self, name):
+        return getattr(self._base, name)
+
+
+@contextlib.contextmanager
+def rotator_stub(fr_module):
+    old_r, old_i, old_np = fr_module.Rotation, fr_module.RegularGridInterpolator, fr_module.np
+    fr_module.Rotation = RotStub
+    fr_module.RegularGridInterpolator = RGIStub
+    fr_module.np = RotatorNumpy(old_np)
+    try:
+        yield
+    finally:
+        fr_module.Rotation, fr_module.RegularGridInterpolator, fr_module.np = old_r, old_i, old_np
